@@ -7,8 +7,9 @@
 //!   G  Symbolizer::get_symbol_at_address(debug_file, debug_id, instr)   (module base 0, name only)
 //! case:  M <mbase> <msize> [X <k> (<base> <size> <hassym>)*k] Q <n> <instr>*n R <item>*   (see ocaml/c11/main.ml)
 //! answer: T<tables>;D<out>/S<idx>:<out>/G<name>;...;X<twin>    names are printed as the integer they encode.
-//!   X  the same file with the INLINE ranges of every FUNC block permuted, parsed and queried again: `Xok` when the
-//!      tables and every D answer are identical (judged by the oracle only; the model has no such field)
+//!   X  twins of the file, parsed and queried again: the INLINE ranges of every FUNC block permuted (`order`), every FILE /
+//!      INLINE_ORIGIN line moved to the end (`move`): `Xok` when the tables and every D answer are identical, else
+//!      `X<label>:<what>` (judged by the oracle only; the model has no such field)
 //! Names are rendered as letter + 4 digits + a decoration chosen by the number (spaces, parentheses,
 //! templates, non-ASCII, tabs): String order is still the integer order, and every name flows through the
 //! real parser; FUNC/PUBLIC get the `m` flag when the name number is divisible by 3.
@@ -189,6 +190,16 @@ fn permuted(text: &str) -> String {
     s
 }
 
+/// The same text with every FILE and INLINE_ORIGIN line moved to the end (relative order kept).
+fn moved(text: &str) -> String {
+    let is_map = |l: &str| l.starts_with("FILE ") || l.starts_with("INLINE_ORIGIN ");
+    let mut out: Vec<&str> = text.lines().filter(|l| !is_map(l)).collect();
+    out.extend(text.lines().filter(|l| is_map(l)));
+    let mut s = out.join("\n");
+    s.push('\n');
+    s
+}
+
 fn fmt_table(sym: &SymbolFile) -> String {
     let funcs: Vec<String> = sym
         .functions
@@ -308,28 +319,39 @@ fn run(line: &str) -> String {
         let g = block_on(symbolizer.get_symbol_at_address("m1", debugid::DebugId::nil(), q));
         out.push(format!("D{}/S{}/G{}", d, s, g.map(|n| nm(&n)).unwrap_or("-".into())));
     }
-    // twin: the INLINE ranges of every FUNC block permuted (c11_inline_order_irrelevant): same tables, same callbacks
-    let twin = match SymbolFile::from_bytes(permuted(&text).as_bytes()) {
-        Ok(s2) => {
-            if fmt_table(&s2) != out[0] {
-                "Xtable".to_string()
-            } else {
-                let mut v = "Xok".to_string();
-                for &q in &qs {
-                    let mut r1 = Rec { instruction: q, ..Default::default() };
-                    sym.fill_symbol(&module, &mut r1);
-                    let mut r2 = Rec { instruction: q, ..Default::default() };
-                    s2.fill_symbol(&module, &mut r2);
-                    if fmt_out(&r1.func, &r1.src, &r1.inl) != fmt_out(&r2.func, &r2.src, &r2.inl) {
-                        v = format!("Xdiff@{}", q);
-                        break;
+    // twins (judged by the oracle): same printed tables, same fill_symbol callbacks at every query
+    //   order  the INLINE ranges of every FUNC block permuted (c11_inline_order_irrelevant)
+    //   move   every FILE and INLINE_ORIGIN record moved to the end of the file, relative order kept: the model's raw_file
+    //          (records per kind, in file order) is literally the same, so the result may not depend on where between the
+    //          other records a FILE / INLINE_ORIGIN line stands
+    let mut twin = "Xok".to_string();
+    for (label, t2) in [("order", permuted(&text)), ("move", moved(&text))] {
+        let v = match SymbolFile::from_bytes(t2.as_bytes()) {
+            Ok(s2) => {
+                if fmt_table(&s2) != out[0] {
+                    Some("table".to_string())
+                } else {
+                    let mut v = None;
+                    for &q in &qs {
+                        let mut r1 = Rec { instruction: q, ..Default::default() };
+                        sym.fill_symbol(&module, &mut r1);
+                        let mut r2 = Rec { instruction: q, ..Default::default() };
+                        s2.fill_symbol(&module, &mut r2);
+                        if fmt_out(&r1.func, &r1.src, &r1.inl) != fmt_out(&r2.func, &r2.src, &r2.inl) {
+                            v = Some(format!("diff@{}", q));
+                            break;
+                        }
                     }
+                    v
                 }
-                v
             }
+            Err(e) => Some(format!("err:{:?}", e).replace(';', ",")),
+        };
+        if let Some(v) = v {
+            twin = format!("X{}:{}", label, v);
+            break;
         }
-        Err(e) => format!("Xerr:{:?}", e).replace(';', ","),
-    };
+    }
     out.push(twin);
     out.join(";")
 }
